@@ -41,6 +41,7 @@ import (
 	"regexp"
 	"strconv"
 	"strings"
+	"sync"
 	"syscall"
 	"sync/atomic"
 	"testing"
@@ -247,7 +248,7 @@ type vfC04BatchRes struct {
 }
 
 func vfC04KVsOf(name string) []vfc20.KV {
-	for _, f := range append(append(vfC04Files(), vfC04OomBait()), vfC04StreamFile(), vfC04Stream2File()) {
+	for _, f := range append(append(vfC04Files(), vfC04OomBait()), vfC04StreamFile(), vfC04Stream2File(), vfC04BigFile()) {
 		if f.Name == name {
 			return f.KVs
 		}
@@ -400,6 +401,20 @@ func vfC04Stream2File() vfC04File {
 		vfc20.LZFString("lz", 'a', 40),
 		vfc20.SmallStreamF("st", "field"),
 		{DB: 0, Key: []byte("z"), Type: 0, Str: []byte("1")},
+	}}
+}
+
+// vfC04BigFile: a list of 260 elements between two strings: expanded (restore off) it is 260 pipelined commands, flushed
+// and checked every 100 (restoreBigRdbEntry) — a fault inside the first batches must not be lost.
+func vfC04BigFile() vfC04File {
+	var items [][]byte
+	for i := 0; i < 260; i++ {
+		items = append(items, []byte(fmt.Sprintf("e%03d", i)))
+	}
+	return vfC04File{Name: "big", KVs: []vfc20.KV{
+		{DB: 0, Key: []byte("a"), Type: 0, Str: []byte("1")},
+		{DB: 0, Key: []byte("L"), Type: 1, Items: items},
+		{DB: 0, Key: []byte("z"), Type: 0, Str: []byte("2")},
 	}}
 }
 
@@ -614,7 +629,15 @@ type vfC04Opts struct {
 	// added after the second review
 	TailLate int `json:",omitempty"` // the last TailLate bytes (footer) arrive only after parser and workers have quiesced on the rest: a
 	// snapshot of realistic length, whose values are decoded and replayed long before the checksum is reached
+	DropAt int `json:",omitempty"` // > 0: the target closes the connection that sends request #DropAt-1 (no reply; other connections live on)
+	Msg    int `json:",omitempty"` // which real refusal text the injected error reply carries (vfC04FailMsgs / vfC04InnerMsgs)
 }
+
+// the texts a real target refuses a request with (a tolerance keyed on a message shows up only with the real message)
+var vfC04FailMsgs = []string{"ERR injected by the C04 harness", "OOM command not allowed when used memory > 'maxmemory'.",
+	"READONLY You can't write against a read only replica.", "WRONGTYPE Operation against a key holding the wrong kind of value"}
+var vfC04InnerMsgs = []string{"ERR injected inside EXEC by the C04 harness", "ERR Bad data format",
+	"BUSYKEY Target key name already exists.", "OOM command not allowed when used memory > 'maxmemory'."}
 
 type vfC04Res struct {
 	Err        error
@@ -669,6 +692,8 @@ func vfC04Send(t *testing.T, kvs []vfc20.KV, data []byte, size int64, o vfC04Opt
 		tg.AcceptScripts = true
 		ro := vfC20Output(c, tg, o.Parallel)
 		ro.cfg.EnableResumeFromBreakPoint = o.Resume
+		var connAddrMu sync.Mutex
+		connAddr := map[int]string{} // connection id of the double -> primary it was dialled for (cluster)
 		if o.Cluster {
 			rcfg := config.RedisConfig{Type: config.RedisTypeCluster, Version: "7.0.0", ClusterOptions: &config.RedisClusterOptions{}}
 			rcfg.SetClusterShards([]*config.RedisClusterShard{
@@ -681,7 +706,11 @@ func vfC04Send(t *testing.T, kvs []vfc20.KV, data []byte, size int64, o vfC04Opt
 				return conn.VerifNewRedisConn(tg.Dial(), rc), nil
 			}
 			ro.newRedisConnToAddress = func(ctx context.Context, addr string) (client.Redis, error) {
-				return conn.VerifNewRedisConn(tg.Dial(), rc), nil
+				c, id := tg.DialID()
+				connAddrMu.Lock()
+				connAddr[id] = addr
+				connAddrMu.Unlock()
+				return conn.VerifNewRedisConn(c, rc), nil
 			}
 		}
 		ctx, cancel := context.WithCancel(context.Background())
@@ -692,13 +721,16 @@ func vfC04Send(t *testing.T, kvs []vfc20.KV, data []byte, size int64, o vfC04Opt
 			tg.FailFromMsg = "ERR persistent failure injected by the C04 harness"
 		}
 		if o.FailInner > 0 {
-			tg.FailInner[nSeed+o.FailInner-1] = "ERR injected inside EXEC by the C04 harness"
+			tg.FailInner[nSeed+o.FailInner-1] = vfC04InnerMsgs[o.Msg%len(vfC04InnerMsgs)]
+		}
+		if o.DropAt > 0 {
+			tg.DropAt = map[int]bool{nSeed + o.DropAt - 1: true}
 		}
 		held := make(chan struct{})
 		release := make(chan struct{})
 		var heldOnce atomic.Bool
 		if o.FailAt >= 0 {
-			tg.FailAt[nSeed+o.FailAt] = "ERR injected by the C04 harness"
+			tg.FailAt[nSeed+o.FailAt] = vfC04FailMsgs[o.Msg%len(vfC04FailMsgs)]
 		}
 		if o.CancelAt >= 0 || o.HoldAt >= 0 {
 			tg.Hook = func(idx int, e vfdoubles.LogEntry) {
@@ -795,17 +827,50 @@ func vfC04Send(t *testing.T, kvs []vfc20.KV, data []byte, size int64, o vfC04Opt
 			}
 		}
 		if o.Lua != "" {
-			// the script of the AUX "lua" field is an entry of the snapshot too
-			loaded := false
+			// the script of the AUX "lua" field is an entry of the snapshot too. It counts as loaded on a connection
+			// when the request was executed: answered without an injected error, and — queued inside MULTI — when the
+			// EXEC that followed on that connection was executed and the command did not fail inside it.
+			failedReq := func(i int) bool {
+				return (o.FailAt >= 0 && i == o.FailAt) || (o.FailFrom > 0 && i >= o.FailFrom-1) || (o.DropAt > 0 && i == o.DropAt-1)
+			}
+			loadedOn := map[int]bool{}
+			pendingScript := map[int][]int{}
 			for i, e := range log {
-				if e.Cmd() == "script" && len(e.Args) == 3 && string(e.Args[2]) == o.Lua {
-					failedReq := (o.FailAt >= 0 && i == o.FailAt) || (o.FailFrom > 0 && i >= o.FailFrom-1)
-					if !failedReq {
-						loaded = true
+				switch {
+				case e.Cmd() == "script" && len(e.Args) == 3 && string(e.Args[2]) == o.Lua:
+					if e.Queued {
+						if !failedReq(i) && !(o.FailInner > 0 && i == o.FailInner-1) {
+							pendingScript[e.Conn] = append(pendingScript[e.Conn], i)
+						}
+					} else if !failedReq(i) {
+						loadedOn[e.Conn] = true
 					}
+				case e.Cmd() == "exec":
+					if !failedReq(i) && len(pendingScript[e.Conn]) > 0 {
+						loadedOn[e.Conn] = true
+					}
+					delete(pendingScript, e.Conn)
+				case e.Cmd() == "multi" || e.Cmd() == "discard":
+					delete(pendingScript, e.Conn)
 				}
 			}
-			if !loaded {
+			if o.Cluster {
+				// ... on EVERY primary: a script / function is not routed by a key
+				for _, addr := range []string{"10.0.0.1:6379", "10.0.0.2:6379"} {
+					on := false
+					connAddrMu.Lock()
+					for id, a := range connAddr {
+						if a == addr && loadedOn[id] {
+							on = true
+						}
+					}
+					connAddrMu.Unlock()
+					if !on {
+						res.AllApplied = false
+						res.Missing = append(res.Missing, "<lua script on "+addr+">")
+					}
+				}
+			} else if len(loadedOn) == 0 {
 				res.AllApplied = false
 				res.Missing = append(res.Missing, "<lua script>")
 			}
@@ -1488,6 +1553,7 @@ func TestVerifC04(t *testing.T) {
 			// target error at request k (single shot; EXEC included)
 			of := o
 			of.FailAt = k
+			of.Msg = k + si
 			mark("fail " + of.String())
 			r := vfC04Send(t, f.KVs, data, int64(len(data)), of)
 			vfC04Monitor(s, "target-error", f.Name, data, of, r)
@@ -1511,12 +1577,22 @@ func TestVerifC04(t *testing.T) {
 				// a command failing at execution time, inside the EXEC reply
 				oi := o
 				oi.FailInner = k + 1
+				oi.Msg = k + si
 				mark("failInner " + oi.String())
 				r = vfC04Send(t, f.KVs, data, int64(len(data)), oi)
 				vfC04Monitor(s, "target-error-inside-exec", f.Name, data, oi, r)
 				s.Count("fan_fail_inner")
 			}
-			if vfutil.Thorough() || k%2 == 0 {
+			if vfutil.Thorough() || (k+int(vfutil.Seed()))%2 == 0 {
+				// the target drops the connection that sends request k (no reply; the other connections live on)
+				od := o
+				od.DropAt = k + 1
+				mark("drop " + od.String())
+				r = vfC04Send(t, f.KVs, data, int64(len(data)), od)
+				vfC04Monitor(s, "connection-dropped", f.Name, data, od, r)
+				s.Count("fan_drop_conn")
+			}
+			if vfutil.Thorough() || (k+int(vfutil.Seed()))%2 == 0 {
 				oc := o
 				oc.CancelAt = k
 				mark("cancelAt " + oc.String())
@@ -1549,6 +1625,73 @@ func TestVerifC04(t *testing.T) {
 			}
 			s.Count("fan_hold_nocancel")
 			s.Distinct(fmt.Sprintf("fan/%s/%d/%d/%v/%v/%d", f.Name, par, ps, bis, sc.cluster, k))
+		}
+	}
+
+	phase("3b")
+	// ------------------------------------------------ 3b. a value of 260 commands (pipelined, flushed every 100): faults inside
+	// and at the edges of every batch — error reply, persistent failure, dropped connection, failure inside EXEC
+	{
+		f := vfC04BigFile()
+		data := f.bytes()
+		for bi, par := range []int{1, 2} {
+			for _, bis := range []bool{false, true} {
+				o := vfC04DefaultOpts()
+				o.Parallel, o.Bisync, o.Restore = par, bis, false
+				o.Resume = bi == 0
+				mark("big clean " + o.String())
+				clean := vfC04Send(t, f.KVs, data, int64(len(data)), o)
+				vfC04Monitor(s, "clean", f.Name, data, o, clean)
+				if clean.Err != nil || !clean.Cp || !clean.AllApplied {
+					s.Violate("clean-run-failed", fmt.Sprintf("intact snapshot: err=%v cp=%v all=%v missing=%q", clean.Err, clean.Cp, clean.AllApplied, clean.Missing),
+						map[string]interface{}{"scenario": "clean", "file": f.Name, "rdb": vfutil.Hex(data), "opts": o.String()})
+					continue
+				}
+				s.Count("fan_clean")
+				nData := clean.NReq
+				if o.Resume {
+					nData--
+				}
+				ks := map[int]bool{}
+				for _, k := range []int{0, 1, 2, 3, 4, 50, 99, 100, 101, 102, 103, 104, 150, 199, 200, 201, 202, 203, 204, 259, 260, 261, 262, 263, nData - 3, nData - 2, nData - 1} {
+					ks[k] = true
+				}
+				pr := vfutil.NewRand(vfutil.Seed()*7919 + uint64(bi))
+				for i := 0; i < vfutil.Scale(8, 60); i++ {
+					ks[pr.Intn(nData)] = true
+				}
+				for k := 0; k < nData; k++ {
+					if !ks[k] {
+						continue
+					}
+					of := o
+					of.FailAt, of.Msg = k, k
+					mark("big fail " + of.String())
+					r := vfC04Send(t, f.KVs, data, int64(len(data)), of)
+					vfC04Monitor(s, "target-error", f.Name, data, of, r)
+					op := o
+					op.FailFrom = k + 1
+					r = vfC04Send(t, f.KVs, data, int64(len(data)), op)
+					vfC04Monitor(s, "target-error-persistent", f.Name, data, op, r)
+					if r.Err == nil {
+						s.Count("viol_persistent-failure-reported-ok")
+						s.Violate("persistent-failure-reported-ok", fmt.Sprintf("every request from #%d on failed, SendRdb returned nil", k),
+							map[string]interface{}{"scenario": "target-error-persistent", "file": f.Name, "rdb": vfutil.Hex(data), "opts": op.String()})
+					}
+					od := o
+					od.DropAt = k + 1
+					mark("big drop " + od.String())
+					r = vfC04Send(t, f.KVs, data, int64(len(data)), od)
+					vfC04Monitor(s, "connection-dropped", f.Name, data, od, r)
+					if bis {
+						oi := o
+						oi.FailInner, oi.Msg = k+1, k
+						r = vfC04Send(t, f.KVs, data, int64(len(data)), oi)
+						vfC04Monitor(s, "target-error-inside-exec", f.Name, data, oi, r)
+					}
+					s.Count("fan_big_value_points")
+				}
+			}
 		}
 	}
 
